@@ -2,6 +2,8 @@ SPECIFICATION Spec
 CONSTANTS
  MaxLen = 6
  NegLen = 2
+ PSplit = 6
+ MaxLenHigh = 6
  Exps <- ExpsSix
  Precs <- PrecsSix
 INVARIANT Lemmas
